@@ -690,7 +690,7 @@ func check(prop string, seed uint64, tier string, maxRuns, workers int, base, ve
 	sort.Strings(sigs)
 	newViolations := 0
 	knownSeen := map[string]bool{}
-	var vlines []string
+	var vlines, unreplayed []string
 	for _, s := range sigs {
 		if k := matchKnown(known, s); k != nil {
 			if !knownSeen[k.Signature] {
@@ -708,7 +708,7 @@ func check(prop string, seed uint64, tier string, maxRuns, workers int, base, ve
 		// confirm in a fresh process
 		out, code := runReplay(self, rf, scratch)
 		if code != 1 {
-			trouble = fmt.Sprintf("violation %s did not replay from %s (exit %d): %s", s, rf, code, short(out, 400))
+			unreplayed = append(unreplayed, fmt.Sprintf("violation %s did not replay from %s (exit %d): %s", s, rf, code, short(out, 400)))
 			continue
 		}
 		vlines = append(vlines, fmt.Sprintf("VIOLATION property=%s replay=%s", prop, rf))
@@ -717,6 +717,19 @@ func check(prop string, seed uint64, tier string, maxRuns, workers int, base, ve
 	}
 	for _, v := range vlines {
 		fmt.Println(v)
+	}
+	// a signature that does not reproduce in a fresh process is never reported as a violation. If
+	// nothing else reproduced either, the check is in trouble (exit 2); next to violations that did
+	// reproduce it is a note (state that outlives a run inside a worker process - a pool, a cache -
+	// makes some runs depend on their predecessors)
+	if len(unreplayed) > 0 {
+		if exit == 0 && trouble == "" {
+			trouble = unreplayed[0]
+		} else {
+			for _, u := range unreplayed {
+				fmt.Fprintln(os.Stderr, "note:", u)
+			}
+		}
 	}
 	// keep only the replay files that a VIOLATION line refers to
 	if all, _ := filepath.Glob(filepath.Join(replayDir(verif), prop+"-*.json")); len(all) > 0 {
